@@ -473,6 +473,14 @@ where
                         Ok(CoroutineState::Suspend(y, timestamp))
                     }
                     CoroutineState::Syscall(y, syscall, state) => {
+                        // The delay/cancel requests of this yield belong to this coroutine:
+                        // consume them here, otherwise the next coroutine that yields on
+                        // this thread would be delayed or cancelled instead.
+                        let cancelled = Suspender::<Yield, Param>::is_cancel();
+                        _ = Suspender::<Yield, Param>::timestamp();
+                        if cancelled && self.running().is_ok() && self.cancel().is_ok() {
+                            return Ok(CoroutineState::Cancelled);
+                        }
                         Ok(CoroutineState::Syscall(y, syscall, state))
                     }
                     _ => Err(Error::other(format!(
